@@ -143,7 +143,11 @@ func genHistory(r *lib.Rand, k int) histIn {
 			if r.Chance(8) {
 				node = "nope:1"
 			}
-			o = opIn{K: "tombstone", QT: sp(validTopics[r.Intn(len(validTopics))]), QN: sp(node)}
+			tt := validTopics[r.Intn(len(validTopics))]
+			if r.Chance(7) { // refused since the fix of F14: the wildcard / an invalid topic name
+				tt = []string{"*", "*", "bad$", ""}[r.Intn(4)]
+			}
+			o = opIn{K: "tombstone", QT: sp(tt), QN: sp(node)}
 			if r.Chance(3) {
 				o.QN = nil
 			}
